@@ -63,24 +63,6 @@ func witnessDesigns() []DCase {
 	add("primitive-payload-in-header", svc1("w_array_payload_header", &dg.Method{Name: "m",
 		Payload: pa(dg.A(dg.ArrayOf(dg.A(dg.Prim("String"))))),
 		HTTP:    &dg.HTTPMap{Routes: []dg.Route{{Verb: "GET", Path: "/m"}}, Headers: []dg.MapEntry{{Attr: "ph", Wire: "X-V"}}}}))
-	// Enum(1,2,3) (Go int literals) on array elements of a sized or unsigned integer type
-	{
-		e := dg.A(dg.Prim("UInt32"))
-		e.V = &dg.Validation{Enum: []any{1, 2, 3}}
-		add("sized-int-enum-array-elements", svc1("w_uint_enum", &dg.Method{Name: "m",
-			Payload: pa(dg.A(dg.Obj(dg.F("xs", dg.ArrayOf(e))))),
-			HTTP:    &dg.HTTPMap{Routes: []dg.Route{{Verb: "POST", Path: "/m"}}}}))
-		e32 := dg.A(dg.Prim("Int32"))
-		e32.V = &dg.Validation{Enum: []any{1, 2, 3}}
-		add("sized-int-enum-array-elements", svc1("w_int32_enum", &dg.Method{Name: "m",
-			Payload: pa(dg.A(dg.Obj(dg.F("xs", dg.ArrayOf(e32))))),
-			HTTP:    &dg.HTTPMap{Routes: []dg.Route{{Verb: "POST", Path: "/m"}}}}))
-		e64 := dg.A(dg.Prim("UInt64"))
-		e64.V = &dg.Validation{Enum: []any{1, 2, 3}}
-		add("sized-int-enum-array-elements", svc1("w_uint64_enum", &dg.Method{Name: "m",
-			Result: pa(dg.A(dg.Obj(dg.F("xs", dg.ArrayOf(e64))))),
-			HTTP:   &dg.HTTPMap{Routes: []dg.Route{{Verb: "GET", Path: "/m"}}}}))
-	}
 	// digit-led attribute name
 	add("digit-led-name", svc1("w_digit_attr", &dg.Method{Name: "m",
 		Payload: pa(dg.A(dg.Obj(dg.F("1abc", dg.Prim("String"))))),
